@@ -161,6 +161,20 @@ impl TrainerConfig {
         ))
     }
 
+    #[cfg(feature = "verif")]
+    pub(crate) fn verif_rewrite(
+        rewrite_def: &str,
+        section: &str,
+        features: &[String],
+    ) -> Result<Option<Vec<String>>> {
+        let (u, l, r) = Self::parse_rewrite_config(rewrite_def.as_bytes())?;
+        Ok(match section {
+            "unigram" => u.rewrite(features),
+            "left" => l.rewrite(features),
+            _ => r.rewrite(features),
+        })
+    }
+
     /// Loads a training configuration from readers.
     ///
     /// # Arguments
